@@ -602,9 +602,19 @@ def bufRows : Option Chunk → List Row
   | none => []
   | some k => k.rows
 
+theorem iterStep_eq (lv : Level) (rid : String) (buf : Option Chunk) (c : Chunk) :
+    iterStep lv rid buf c =
+      ((match buf with
+        | none => pure c
+        | some k => concatenate [k, c] lv.allow) >>= fun b =>
+       b.split b.stop true >>= fun p =>
+       compute lv rid p.1 >>= fun out => pure (out, p.2)) := by
+  unfold iterStep
+  cases buf <;> rfl
+
 theorem iterStep_rows {lv : Level} {rid : String} {buf : Option Chunk} {c o r : Chunk}
     (h : iterStep lv rid buf c = .ok (o, r)) : o.rows ++ r.rows = bufRows buf ++ c.rows := by
-  unfold iterStep at h
+  rw [iterStep_eq] at h
   obtain ⟨b, hb, h⟩ := bind_ok h
   obtain ⟨⟨inp, rest⟩, hs, h⟩ := bind_ok h
   obtain ⟨out, hc, h⟩ := bind_ok h
@@ -644,8 +654,8 @@ theorem pluginIter_rows (lv : Level) (rid : String) : ∀ (cs : List Chunk) (buf
     subst h
     have ih := pluginIter_rows lv rid cs (some r) os hr
     have h1 := iterStep_rows hs
-    simp only [rowsOf_cons, ih, bufRows]
-    rw [← List.append_assoc, h1, List.append_assoc]
+    have hb : bufRows (some r) = r.rows := rfl
+    rw [rowsOf_cons, rowsOf_cons, ih, hb, ← List.append_assoc, h1, List.append_assoc]
 
 /-- a row-wise plugin level neither loses, duplicates nor reorders rows — for every input stream -/
 theorem pluginRun_rows {lv : Level} {rid : String} {cs outs : List Chunk} (h : pluginRun lv rid cs = .ok outs) :
